@@ -2,6 +2,7 @@ import BornoModel.Eval
 import BornoModel.Parser
 import BornoModel.Props.C10
 import BornoModel.Lemmas.LexInsert
+import BornoModel.Lemmas.Interchange
 /-! # C18 — meaning is invariant under layout, digit script, synonyms, renaming, parentheses -/
 namespace Borno.Props.C18
 open Borno Lexer
@@ -167,5 +168,25 @@ example :
       some ⟨some ⟨.PLUS, "+".toList, .none, 1⟩, none, "+".toList, "1".toList, 1⟩ := by rfl
   refine ⟨AfterToken.here h1 rfl rfl, ?_⟩
   exact AfterToken.later (A' := "+".toList) h1 rfl (by simp) (AfterToken.here h2 rfl rfl)
+
+/-- (e) **redundant parentheses, at any depth**: wrapping any operand, argument, element, subscript, callee,
+    receiver or assigned value of any enclosing expression in parentheses changes nothing — not the value, not the
+    effects, not whether and how it fails — in every scope and store (from some step budget on); and so for the
+    statements that print it, evaluate it, declare with it, return it or branch on it.
+    (Partial: holes inside object-literal initialisers, loop headers and function bodies are tested end to end only.) -/
+theorem redundant_parentheses_anywhere_in_an_expression (P : Platform) (C : Ctx) (e : Expr) (l : Nat) :
+    EvEq P (C.plug (.grouping e l)) (C.plug e) ∧
+    EvS P (.print (C.plug (.grouping e l))) (.print (C.plug e)) ∧
+    EvS P (.expr (C.plug (.grouping e l))) (.expr (C.plug e)) ∧
+    (∀ n dl, EvS P (.var ⟨n, dl, some (C.plug (.grouping e l))⟩) (.var ⟨n, dl, some (C.plug e)⟩)) ∧
+    (∀ rl, EvS P (.returnS rl (some (C.plug (.grouping e l)))) (.returnS rl (some (C.plug e)))) ∧
+    (∀ t el, EvS P (.ifS (C.plug (.grouping e l)) t el) (.ifS (C.plug e) t el)) :=
+  have h := paren_anywhere P C e l
+  ⟨h, evS_print P h, evS_expr P h, fun n dl => evS_var P n dl h, fun rl => evS_return P rl h, fun t el => evS_ifCond P t el h⟩
+
+/-- the hypothesis is met by every expression, the contexts are not trivial: `f(1, (x))` and `f(1, x)` -/
+example (P : Platform) : EvEq P (.call (.ident "f".toList 1) 1 [.literal (.num (F64.ofNat 1)) 1, .grouping (.ident "x".toList 1) 1])
+    (.call (.ident "f".toList 1) 1 [.literal (.num (F64.ofNat 1)) 1, .ident "x".toList 1]) :=
+  (redundant_parentheses_anywhere_in_an_expression P (.arg (.ident "f".toList 1) 1 [.literal (.num (F64.ofNat 1)) 1] .hole []) (.ident "x".toList 1) 1).1
 
 end Borno.Props.C18
